@@ -790,7 +790,7 @@ def main():
         run(chk, 12000, 12000, 4)
     else:
         run(chk, 1400, 1400, 4)
-        if chk.broken() and not chk.spec_failures:
+        if (chk.broken() or chk.anchor_changed) and not chk.spec_failures:
             chk.notes.append("escalated to a bigger budget after a broken proof/correspondence")
             run(chk, 3000, 3000, 4)
     chk.finish()
